@@ -11,7 +11,7 @@ import Mathlib.Tactic.Linarith
   * `IsSeminorm d N`: `N : List K → K` is non-negative, sub-additive and positively homogeneous on
     coordinate lists of length `d` (vector operations `vadd`, `vsmul` of the evaluation model).  The
     Euclidean norm `√(Σ xᵢ²)` over `ℝ` – what `linalg.point_distance` computes in floating point – is
-    an instance (Cauchy–Schwarz); no square root is taken in `K`.  `l1norm` (sum of absolute values)
+    an instance (`euclid_isSeminorm`, Lemmas/LengthEuclid.lean); no square root is taken in `K`.  `l1norm` (sum of absolute values)
     is an instance over every ordered field (`l1norm_isSeminorm`), used for the concrete examples.
   * `polylineLength` as a sum over consecutive pairs, recursively and as a `Finset` sum.
   * `polyline_ge_chord`: a polyline is at least as long as the chord from its first to its last point.
@@ -23,7 +23,8 @@ open Finset
 variable {K : Type} [Field K] [LinearOrder K] [IsStrictOrderedRing K]
 
 /-- `N` is a seminorm on coordinate lists of length `d` (only POSITIVE homogeneity is required, so
-    asymmetric gauges are allowed as well).  Instances: the Euclidean norm over `ℝ`, `l1norm`. -/
+    asymmetric gauges are allowed as well).  Instances: the Euclidean norm over `ℝ`
+    (`euclid_isSeminorm`, Lemmas/LengthEuclid.lean), `l1norm` (`l1norm_isSeminorm` below). -/
 structure IsSeminorm (d : ℕ) (N : List K → K) : Prop where
   nonneg : ∀ v, v.length = d → 0 ≤ N v
   add_le : ∀ a b, a.length = d → b.length = d → N (vadd a b) ≤ N a + N b
